@@ -2,6 +2,7 @@
 quarter-turn lattice, every finished lattice model replayed into mj_makeM / mj_factorM / mj_solveM / mj_mulM / mj_fullM /
 mj_rne / mj_inverse / mj_energyVel."""
 import os
+from fractions import Fraction
 
 from checks import _smooth as S
 
@@ -11,7 +12,12 @@ META = dict(
               "Newton-Euler derived twice (projected through the Jacobians and by the recursive pass over the tree) in exact "
               "integer arithmetic; TLC decides symmetry, positive definiteness, zero pattern, agreement of the two "
               "derivations, RNE(a) = M a + bias and 2 E_kin = v'Mv on the lattice; every finished model is replayed",
-    text="Exhaustive 2-body (thorough: 3-body) lattices with armature and tendon armature and simulated 3-4 body models "
+    text="Tendons: one fixed tendon (integer coefficients, optionally wrapping the other joints with coefficient 0 so that its "
+         "stored Jacobian row has exact zeros before non-zeros) and one spatial site-to-site tendon with armature on "
+         "configurations where its length is an integer (M + m J_t'J_t, kinetic energy, tendon-armature bias force m J_t' "
+         "(Jdot_t.v), inverse dynamics, all in rationals over L^2 / L^4; TLC decides d(L^2) along slides = exact central "
+         "difference, symmetry, x'Mx > 0, 2 E_kin = v'Mv). "
+         "Exhaustive 2-body (thorough: 3-body) lattices with armature and tendon armature and simulated 3-4 body models "
          "(all tree shapes, slide/hinge on signed axes, quarter-turn poses, integer velocities and accelerations) are "
          "replayed: mj_fullM, L'DL rebuilt from qLD/qLDiagInv, mj_mulM (vector and every unit vector), mj_solveM o mj_mulM, "
          "qfrc_bias, mj_rne with and without acceleration, mj_inverse (= M a + bias), kinetic energy.",
@@ -34,32 +40,44 @@ def script_for(ev):
         return sc
     sc.oks(S.state_lines(ev))
     sc.ok("forward 0")
-    M = S.flat(ev["M"])
+    # totals including the spatial tendon's armature are published over L^2 (inertia, energy) and L^4 (forces)
+    L = ev["spL"]
+    d2 = Fraction(L * L if L > 0 else 1)
+    d4 = d2 * d2
+    Mt = [[Fraction(x) / d2 for x in row] for row in ev["Msp"]]
+    M = S.flat(Mt)
     if ev["xten"]:
         # M has entries outside the tree pattern; everything below would only repeat a mismatch of M itself
         sc.vec("fullm 0", "fullM(tendon armature across branches)", M)
         return sc
-    sc.vec("fullm 0", "fullM", M)
-    sc.vec("reconld 0", "qLD(L'DL)", M)
+    tag = "+spatial" if L > 0 else ""
+    sc.vec("fullm 0", "fullM" + tag, M)
+    sc.vec("reconld 0", "qLD(L'DL)" + tag, M)
     v = list(ev["qvel"])
-    sc.vec("mulm 0 %s" % S.csv(v), "mulM(qvel)", ev["Mv"])
-    sc.vec("solvem 0 %s" % S.csv(ev["Mv"]), "solveM(M qvel)", v)
+    Mv = [Fraction(x) / d2 for x in ev["Mvsp"]]
+    sc.vec("mulm 0 %s" % S.csv(v), "mulM(qvel)" + tag, Mv)
+    sc.vec("solvem 0 %s" % S.csv(Mv), "solveM(M qvel)" + tag, v)
     for d in range(nv):
         e = [1.0 if k == d else 0.0 for k in range(nv)]
-        col = [ev["M"][r][d] for r in range(nv)]
-        sc.vec("mulm 0 %s" % S.csv(e), "mulM(e_i)", col)
-        sc.vec("solvem 0 %s" % S.csv(col), "solveM(M e_i)", e)
-    scale = max([1.0] + [abs(x) for x in ev["bias"]] + [abs(x) for x in ev["rnea"]] + [abs(x) for x in ev["inv"]])
-    sc.vec("get 0 qfrc_bias", "qfrc_bias", ev["bias"], scale=scale)
+        col = [Mt[r][d] for r in range(nv)]
+        sc.vec("mulm 0 %s" % S.csv(e), "mulM(e_i)" + tag, col)
+        sc.vec("solvem 0 %s" % S.csv(col), "solveM(M e_i)" + tag, e)
+    bias = [Fraction(x) / d4 for x in ev["biassp"]]
+    inv = [Fraction(x) / d4 for x in ev["invsp"]]
+    scale = max([1.0] + [abs(x) for x in ev["bias"]] + [abs(float(x)) for x in bias] + [abs(x) for x in ev["rnea"]] +
+                [abs(float(x)) for x in inv])
+    if L > 0:
+        sc.vec("get 0 ten_length", "ten_length(spatial)", [L], skip=1 if any(b["tc"] != 0 for b in ev["bodies"]) else 0)
+    sc.vec("get 0 qfrc_bias", "qfrc_bias" + tag, bias, scale=scale)          # Newton-Euler bias + tendon-armature bias
     sc.vec("rne 0 0", "rne(0)", ev["bias"], scale=scale)
     sc.ok("setv 0 qacc %s" % S.csv(ev["qacc"]))
     sc.vec("rne 0 1", "rne(a)", ev["rnea"], scale=scale)
     sc.ok("energyVel 0")
-    sc.num("dscalar 0 energy1", "energy(kinetic)", ev["kin2"] / 2.0)
+    sc.num("dscalar 0 energy1", "energy(kinetic)" + tag, Fraction(ev["kin2sp"]) / d2 / 2)
     # inverse dynamics at the chosen acceleration: M a + bias (the C06 lattices carry no passive force)
     sc.ok("setv 0 qacc %s" % S.csv(ev["qacc"]))
     sc.ok("inverse 0")
-    sc.vec("get 0 qfrc_inverse", "inverse(a)", ev["inv"], scale=scale)
+    sc.vec("get 0 qfrc_inverse", "inverse(a)" + tag, inv, scale=scale)
     return sc
 
 
@@ -79,19 +97,33 @@ NEED = {
     "a branching tree (zero block in M)": lambda ev: ev["nv"] >= 2 and any(
         ev["Mb"][i][j] == 0 for i in range(ev["nv"]) for j in range(ev["nv"]) if i != j),
     "nonzero acceleration": lambda ev: any(b["a"] != 0 for b in ev["bodies"]),
+    "a spatial tendon with armature inside one chain": lambda ev: ev["spL"] > 0 and not ev["xten"],
+    "a spatial tendon whose Jacobian has an exact zero before a non-zero entry": lambda ev: ev["spL"] > 0 and not ev["xten"] and any(
+        ev["spn"][i] == 0 and any(x != 0 for x in ev["spn"][i + 1:]) for i in range(ev["nv"])),
 }
+NEED_THOROUGH = {
+    "a spatial tendon with a velocity-dependent bias": lambda ev: ev["spL"] > 0 and not ev["xten"] and any(
+        ev["biassp"][i] != ev["spL"] ** 4 * ev["bias"][i] for i in range(ev["nv"])),
+}
+NEED.update({
+    "a fixed tendon with a zero coefficient before a non-zero one": lambda ev: ev["glob"]["tz"] and ev["glob"]["tarm"] != 0 and not ev["xten"] and any(
+        ev["bodies"][b - 1]["tc"] == 0 and any(ev["bodies"][c - 1]["tc"] != 0 for c in ev["dofs"][i + 1:])
+        for i, b in enumerate(ev["dofs"])),
+})
 
 
 def run(ctx):
     ctx.assume("trees of at most 4 bodies in depth-first order, one slide or hinge joint per body on a signed coordinate axis",
                "integer masses, principal inertias, armatures, velocities, accelerations; quarter-turn poses",
-               "fixed tendons (integer coefficients) with armature; no passive forces in these lattices",
+               "fixed tendons (integer coefficients, possibly 0) with armature; one spatial site-to-site tendon with armature on "
+               "configurations where its length is an integer <= 7; no passive forces in these lattices",
                "comparison tolerance 1e-9 relative to the largest entry of the compared vector / of the force vectors")
     if ctx.quick:
         mcs, nsim, cov = ["SmoothLattice_C06MC.cfg"], 150, None
     else:
         mcs, nsim, cov = ["SmoothLattice_C06MC.cfg", "SmoothLattice_C06Deep.cfg"], 1500, "SmoothLattice_Cov.cfg"
-    allres = S.run_lattice(ctx, "C06", SPEC, mcs, "SmoothLattice_C06Sim.cfg", nsim, script_for, sig_of, need=NEED, cov_cfg=cov,
+    allres = S.run_lattice(ctx, "C06", SPEC, mcs, "SmoothLattice_C06Sim.cfg", nsim, script_for, sig_of,
+                           need=NEED if ctx.quick else dict(NEED, **NEED_THOROUGH), cov_cfg=cov,
                            neg_cfg=None if ctx.quick else ("SmoothLattice_C06Neg.cfg", "NegBiasVelocityFree"))
     sims = allres[-1][1]
     S.perturb_control(ctx, "perturbed M entry is flagged", sims, "fullM", 1e-6)
